@@ -12,6 +12,8 @@ mutability or unsafe code. Decided (structural, for every program, schedule and 
    from_raw, ptr::write/read, transmute occur nowhere except LTerm::project (recorded finding F4);
    the three stores are written only through Rc::make_mut (clone-on-write);
  * forks clone: decided under C06 (K4); State is not Copy (witness, thorough tier).
+ (round 4, shared) the disjunction builders are total folds from `fail` (a `succeed` seed adds a
+   phantom branch, a swapped operand drops one).
 """
 import hirwalk
 import mutaudit
@@ -106,6 +108,10 @@ def check_union(ctx, lib):
     streams.check_disj_solve(ctx, lib, streams.DFS, R + "K3.disj-dfs", "<crate::operator::disj::DFSDisj as crate::solver::Solve>::solve")
     streams.check_disj_new(ctx, lib, R + "K6.disj-new", "crate::operator::disj::Disj::new", "disj::Disj")
     streams.check_disj_new(ctx, lib, R + "K6.disj-new", "crate::operator::disj::DFSDisj::new", "DFSDisj")
+    # a disjunction built from an array has exactly the listed branches: fold from `fail`, every element once
+    import builders
+
+    builders.check_all(ctx, lib, R + "K6.builders")
 
 
 def run_once(ctx, tier):
